@@ -12,20 +12,21 @@ GROUPS = {
 }
 for lane in range(4):
     GROUPS['abs32_l%d' % lane] = Group('abs32_l%d' % lane, extract.base_filter, cpp=['props/C02/wrappers.cpp'], c=['props/C02/contracts.c'],
-                                        defines=['VF_MUL32_ABSTRACT', 'VF_LANE=%d' % lane])
+                                        defines=['VF_MUL32_ABSTRACT', 'VF_MUL32_PURE', 'VF_LANE=%d' % lane])
 def filt_mult(repo_src, dst):
     f = extract.base_filter(repo_src, dst)
     f.drop_function('goldilocks_base_field_avx.hpp', 'Goldilocks::mult_avx_128', expect=1, rule='E-callee')
     f.drop_function('goldilocks_base_field_avx.hpp', 'Goldilocks::reduce_avx_128_64', expect=1, rule='E-callee')
+    f.drop_function('goldilocks_base_field_avx.hpp', 'Goldilocks::square_avx_128', expect=1, rule='E-callee')
     return f
 GROUPS['mod'] = Group('mod', filt_mult, cpp=['props/C02/wrappers.cpp', 'props/C02/forwarders.cpp'], c=['props/C02/contracts.c'],
-                      defines=['VF_MUL32_ABSTRACT', 'VF_MODULAR'], cxx_defines=['FWD_MULT_AVX_128', 'FWD_REDUCE_AVX_128_64'])
+                      defines=['VF_MUL32_ABSTRACT', 'VF_MODULAR'], cxx_defines=['FWD_MULT_AVX_128', 'FWD_REDUCE_AVX_128_64', 'FWD_SQUARE_128'])
 A = 'src/goldilocks_base_field_avx.hpp'
 UNITS = []
 def U(name, group='exact', desc=None, **kw):
     if group == 'modlanes':
-        UNITS.append(Unit('k_%s' % name, 'mod', 'k_' + name, replace=['k_mult_avx_128', 'k_reduce_avx_128_64'],
-                          functions=['Goldilocks::%s over the contracts of mult_avx_128 and reduce_avx_128_64 (%s)' % (desc or name, A)], **kw))
+        UNITS.append(Unit('k_%s' % name, 'mod', 'k_' + name, replace=['k_mult_avx_128', 'k_reduce_avx_128_64', 'k_square_avx_128'],
+                          functions=['Goldilocks::%s over the contracts of mult/square_avx_128 and reduce_avx_128_64 (%s)' % (desc or name, A)], **kw))
         return
     if group == 'lanes':
         for lane in range(4):
@@ -40,8 +41,9 @@ U('add_avx_ca', desc='add_avx [c==a]')
 U('sub_avx_cb', desc='sub_avx [c==b]')
 for n in ('reduce_avx_128_64', 'reduce_avx_96_64', 'mult_avx_72', 'mult_avx_8'):
     U(n, 'abs32')
-for n in ('mult_avx_128', 'square_avx_128', 'square_avx'):
+for n in ('mult_avx_128', 'square_avx_128'):
     U(n, 'lanes')
+U('square_avx', 'modlanes')
 U('mult_avx', 'modlanes')
 U('mult_avx_cab', 'modlanes', desc='mult_avx [c==a==b]')
 
